@@ -636,7 +636,15 @@ func readClearsOnFailure(c *core.Ctx, p *load.Prog) bool {
 		if x, ok := nilTestExpr(ifs.Cond); !ok || x != "err" {
 			return true
 		}
+		left := false
 		for _, direct := range ifs.Body.List {
+			// a way out of the arm before the clearing makes it conditional
+			if !cleared && containsReturn(direct) {
+				left = true
+			}
+			if left {
+				break
+			}
 			m := ast.Node(direct)
 			if es, ok := direct.(*ast.ExprStmt); ok {
 				m = es.X
@@ -1040,4 +1048,18 @@ func iohelpMustStrings(c *core.Ctx, p *load.Prog, rule string) {
 		})
 		c.Check(rule, name+" touches buf only as buf[4:4+sz]", f.pos(), bad == "" && slices == 1, "the expression "+bad+" reads buf outside the string's own bytes: an empty string at the end of a valid buffer panics under this option only")
 	}
+}
+
+func containsReturn(n ast.Node) bool {
+	found := false
+	ast.Inspect(n, func(m ast.Node) bool {
+		if _, ok := m.(*ast.ReturnStmt); ok {
+			found = true
+		}
+		if _, ok := m.(*ast.FuncLit); ok {
+			return false
+		}
+		return !found
+	})
+	return found
 }
